@@ -7,17 +7,64 @@ EXTRACTION = ("Extraction: Require Extraction, ExtrOcamlBasic, ExtrOcamlNatBigIn
               "nat/positive/N/Z with their arithmetic to zarith's Big_int_Z); no other Extract directive. Extracted code is "
               "used only by the correspondence check; no theorem depends on it.")
 
+TIE = ("Tie to code: correspondence check on every run - the extracted model and the implementation (sfs-core through the "
+       "sfs-probe harness and/or the real `sfs` binary, rebuilt from /repo's working tree) run on the same generated inputs; "
+       "a disagreement on a case covered by a theorem's hypotheses is reported with that input as replay. ")
+BASE_NOTE = ("Trusted: Coq 8.16.1 kernel (coqchk in the thorough tier), no axioms (every property theorem 'Closed under the global "
+             "context', audited on every run); the hand-written Gallina model; the correspondence harness (sfs-probe, driver.ml, py/). "
+             "Modelled rather than verified: noodles (VCF/BCF/BGZF decoding), flate2, clap, nom's combinator implementation, Rust std "
+             "float formatting/parsing, libm; f64 rounding is bounded empirically (stated tolerances), theorems are in exact arithmetic. ")
+
+def C(text, technique, design, note=""):
+    return dict(text=text + " " + TIE, note=BASE_NOTE + note + " " + EXTRACTION, technique=technique, design=design)
+
 CLAIMED = {
- "C19": dict(
-    text="Proof: 11 theorems (Properties/C19.v, all 'Closed under the global context') about an executable Gallina model of "
-         "Array/View/AxisIter/IndicesIter: flat<->multi-index bijection, row-major enumeration, get/get_axis None-iff, "
-         "the view odometer for every call history (fusedness, len), iter_axis, sum = adding views - for all shapes with "
-         "positive lengths, unbounded. Tie to code: correspondence of the extracted model with sfs-core's API on every "
-         "shape in the bound (ramp data identifies positions), debug and release.",
-    note="Trusted: Coq kernel; hand-written model (coq/theories/Model/{Index,ArrayM}.v); correspondence harness (sfs-probe, "
-         "driver.ml, py/). Zero-length axes are outside the theorems (positive_shape hypothesis). " + EXTRACTION,
-    technique="Rocq proof (induction on shapes, odometer invariant) + extracted-model/implementation differential check",
-    design="7/C19"),
+ "C01": C("Proof: the run loop without projection yields, for every in-bounds k, the number of records complete for every selected "
+          "sample whose per-population ALT counts are k (create_counts), the shape (2n_j+1), unselected columns irrelevant, mass = "
+          "counted records - for all configurations produced by the builder and all record streams, by induction.",
+          "Rocq proof (fold invariants over the record stream) + model/binary differential on rendered VCF/BCF call sets", "7/C01",
+          "The VCF/BCF bytes -> genotypes step is noodles: exercised, not proved."),
+ "C02": C("Proof: with a projection target every covered record adds prod_j Hypergeom(k_j; t_j, a_j, m_j), uncovered ones nothing, the "
+          "exact-coverage branch agrees (hyp_id), the per-site iterator enumerates the target index space in row-major order, "
+          "-p i = --project-shape 2i+1.", "Rocq proof (odometer invariant, hypergeometric identities) + differential within 1e-9", "7/C02",
+          "The f64 pmf kernel (exp/ln-gamma) is compared with the exact rational pmf, not proved."),
+ "C03": C("Proof: Spectrum::project refines sum_k x[k] prod_j Hypergeom; mass, non-negativity, identity, two-step = direct "
+          "(hyp_compose), commutation with marginalization, exact error characterisation; Vandermonde from mathcomp. All shapes, "
+          "unbounded.", "Rocq proof (mathcomp binomial identities bridged to an N-valued binomial, Fubini) + kernel/spectrum differential", "7/C03",
+          "Finite results at large sizes are asserted on the implementation (sizes up to 4001); no theorem about exp/ln."),
+ "C04": C("Proof: marginalize = sums over all indices of the removed axes (remaining axes in order), order-free, one-at-a-time = "
+          "joint, mass, exact error characterisation with precedence, keep = remove of complement.",
+          "Rocq proof (indicator sums, Fubini over one axis, sortedness) + exact differential on integer data", "7/C04"),
+ "C05": C("Proof: fold = x[k]+x[mirror k] below the diagonal, average on it, fill above; mass (fill 0), idempotence, polarity "
+          "symmetry, for every shape of positive lengths.", "Rocq proof (flat/mirror bijection, pairing argument) + bit-exact differential on dyadic data", "7/C05"),
+ "C06": C("Proof: histogram lemma; S, sum, pi, pi_xy, f2/f3/f4, Fst, KING/R0/R1 computed from the histogram spectrum equal the "
+          "per-site definitions (differing chromosome pairs, allele-frequency products, genotype-pair counts); Watterson, Tajima pi, "
+          "Tajima's D and Fu-Li's D (numerator and radicand) equal the published formulas.",
+          "Rocq proof over Qc (histogram lemma, field) + `sfs stat` differential and an independent genotype-level oracle", "7/C06",
+          "The square root of the D statistics is left symbolic (numerator, radicand)."),
+ "C08": C("Proof: exact iff-characterisation of the four classes of a decoded GT; a selected non-diploid genotype fails the run at "
+          "that record with its contig:position and no spectrum; unselected columns never matter.",
+          "Rocq proof (case analysis, run-loop induction) + exhaustive GT alphabet through function, VCF and BCF paths", "7/C08",
+          "GT text/BCF decoding is noodles."),
+ "C09": C("Proof: population ids = position of first appearance of the label, axis lengths 2n+1, unnamed = one population, "
+          "label-order-preserving reorderings and column permutations change nothing observable, empty/unknown are errors.",
+          "Rocq proof (fold invariant of the IndexMap/IndexSet model, permutation invariance) + differential incl. -s vs -S on the binary", "7/C09"),
+ "C10": C("Proof: mass + skipped = records for every stream (each counted record has weight exactly one: Vandermonde per axis), strict "
+          "fails at the FIRST would-be-skipped record and otherwise equals the non-strict run, every error leaves no spectrum.",
+          "Rocq proof (run-loop invariant) + faults placed at every record position on the binary", "7/C10"),
+ "C11": C("Proof: the per-record result is independent of ALL prior states of the right dimensions (counts, totals, skipped, "
+          "projection buffer); concatenation = element-wise sum; permutation invariance.",
+          "Rocq proof (state relation, commutative-monoid sums) + site-class histories through site::Reader", "7/C11"),
+ "C13": C("Proof: view_run = bind-chain of the single-option runs in the order marginalize > project > mask > normalize; mask zeroes "
+          "exactly the all-zero/all-max entries; normalize sums to one preserving ratios; identity.",
+          "Rocq proof + combined vs chained invocations through npy pipes (byte-identical) on the binary", "7/C13"),
+ "C14": C("Proof: f3/f4 = documented f2 combinations of marginals; fold-invariance of pi, theta, S, Tajima's D, pi_xy, f2/f3/f4, Fst, "
+          "KING, R0, R1; independence from the monomorphic entries; swap symmetry; homogeneity of degree 0/1.",
+          "Rocq proof over Qc (mirror-symmetric weights, Fubini, field) + metamorphic runs of the binary", "7/C14"),
+ "C19": C("Proof: flat<->multi-index bijection, row-major enumeration, get/get_axis None-iff, the view odometer for every call "
+          "history (fusedness, len), iter_axis, sum = adding views - all shapes with positive lengths.",
+          "Rocq proof (induction on shapes, odometer invariant) + exhaustive small-shape differential", "7/C19",
+          "Zero-length axes are outside the theorems (positive_shape)."),
 }
 
 NOT_YET = {}
